@@ -11,6 +11,7 @@ import (
 	"math/rand"
 	"os"
 	"sort"
+	"strings"
 	"sync"
 	"sync/atomic"
 
@@ -244,6 +245,56 @@ func enumReaderCases(mode string, seed int64, thorough bool, n int) []func() (ca
 		}
 	}
 	k := 0
+	if mode == "c05m" {
+		// every transform on data that makes it work, a dozen large blocks (the inverse phases of several tasks overlap for a long
+		// time), decoded with 2..16 jobs: whatever state an inverse transform keeps must be its own
+		act := map[string][]string{"TEXT": {"text", "html"}, "UTF": {"utf8cjk", "utf8wide"}, "DNA": {"dna"}, "PACK": {"smallalpha", "hex"}, "EXE": {"x86"},
+			"MM": {"wav", "bmp"}, "RLT": {"runs"}, "ZRLT": {"sparse"}, "RANK": {"runs"}, "MTFT": {"runs"}, "SRT": {"text"}, "BWT": {"text"}, "BWTS": {"text"},
+			"LZ": {"html"}, "LZX": {"html"}, "LZP": {"html"}, "ROLZ": {"text"}, "ROLZX": {"dnarep"}, "NONE": {"mixed"}}
+		B := uint(262144)
+		nb := 12
+		if thorough {
+			nb = 24
+		}
+		for ti, tf := range []string{"NONE", "BWT", "BWTS", "LZ", "RLT", "ZRLT", "MTFT", "RANK", "EXE", "TEXT", "ROLZ", "ROLZX", "SRT", "LZP", "MM", "LZX", "UTF", "PACK", "DNA",
+			"TEXT+UTF+PACK+MM+LZX", "TEXT+UTF+BWT+RANK+ZRLT"} {
+			shapes := act[strings.Split(tf, "+")[0]]
+			for si, shape := range shapes {
+				size := (nb-1)*int(B) + 70001
+				dseed := seed*149 + int64(ti*10+si)
+				// every block gets its own content (different tables / dictionaries from block to block)
+				var orig []byte
+				for b := 0; len(orig) < size; b++ {
+					n := int(B)
+					if len(orig)+n > size {
+						n = size - len(orig)
+					}
+					orig = append(orig, gen.Make(shape, dseed+int64(1000*b), n)...)
+				}
+				w := kz.Cfg{Transform: tf, Entropy: "NONE", Block: B, Jobs: 4, Ck: []uint{0, 32}[(ti+si)%2], Hint: []int64{-1, int64(size)}[si%2]}
+				stream, err := kz.Compress(orig, w, nil, nil)
+				if err != nil {
+					continue
+				}
+				base := readerRun{Shape: shape, Size: size, W: w, CloseAt: -1, After: 3, Mode: "clean"}
+				jl := []uint{2, 4, 8}
+				if thorough {
+					jl = []uint{2, 3, 4, 8, 16}
+				}
+				for ji, j := range jl {
+					run := base
+					run.Run, run.Seed = k, dseed+int64(ji)
+					run.R = kz.RCfg{Jobs: j}
+					run.Lens = [][]int{{1 << 20}, {65536}, {300000, 7}}[(ti+ji)%3]
+					run.Perturb = []int{0, 0, 3}[(ti+si+ji)%3]
+					r := run
+					gens = append(gens, func() (caseT, bool) { return caseT{&r, stream, orig, nil}, true })
+					k++
+				}
+			}
+		}
+		return gens
+	}
 	for si := 0; si < 400 && nstreams > 0; si++ {
 		B := uint(1024)
 		pair := fastPairs[rnd.Intn(12)]
@@ -485,6 +536,14 @@ func planReaderRun(mode string, k int, seed int64, thorough bool) (*readerRun, [
 		size = 5<<20 + rnd.Intn(1<<19)
 		run.Shape = "text"
 	}
+	if mode == "c06" && k < 8 {
+		// frames larger than the 256 KiB buffer of the input bit stream (incompressible data, large blocks): the bulk paths that
+		// copy whole buffers from the source, at every bit alignment of the frame (eight different small first blocks shift it)
+		B = 1 << 20
+		pair = [][2]string{{"NONE", "NONE"}, {"LZ", "HUFFMAN"}, {"NONE", "ANS0"}, {"RLT", "NONE"}}[k%4]
+		size = int(B) + 300000 + 40000*k
+		run.Shape = "random"
+	}
 	run.Size = size
 	ck := pick(rnd, []uint{0, 32, 64})
 	if mode == "c02" {
@@ -658,7 +717,7 @@ func cmdRecReader(args []string) int {
 	var retry []func() []tr.Ev
 	var gens []func() (caseT, bool)
 	switch *mode {
-	case "c09x", "c02x", "c11x", "c02p":
+	case "c09x", "c02x", "c11x", "c02p", "c05m":
 		gens = enumReaderCases(*mode, *seed, *thorough, *n)
 	default:
 		for k := 0; k < *n; k++ {
